@@ -6,99 +6,107 @@
    A pure function over a discrete domain.  One complete state = one case  [v, sfx, comp]  (comp is filled in density by
    density, so that TLC's workers share the cases):
      v      variant of the generated micro table (which optional reactions / scatter matrices / heating data exist)
-     sfx    cross-section-id suffix of the composition ("AA" or "AB")
-     comp   nuclide -> number density (exact rational), nuclides 1..NNuc
-   The library holds nuclides 1..3 under suffix AA and nuclide 1 (with other numbers) under suffix AB; nuclide 4 is in no
-   library.  Micros are small dyadic rationals, a function of (variant, nuclide, suffix, reaction, group) -- the harness
-   builds the real library from the table this module prints (TableJson) and calls the real functions once per case
-   printed by CaseJson; every expected array below is evaluated by TLC.
+     sfx    cross-section-id suffix of the composition: "AA" or "NA"
+     comp   nuclide -> number density (exact rational), nuclides 1..NNuc = U235, FE56, NA23, PU239
+   The library (ISOTXS + GAMISO + PMATRX parts, merged) holds nuclides 1..3 under id AA and nuclides 1 and 3, with other
+   numbers, under id NA -- the id "NA" is a substring of the label NA23AA of the OTHER id, so a suffix test that looks at the
+   whole label instead of its last two characters picks up a foreign nuclide.  Nuclide 4 is in no library.
+   Micros are small dyadic rationals, a function of (radiation, variant, nuclide, suffix, reaction, group) -- the harness
+   builds the real library from the table this module prints (TableJson) and calls the real functions once per case printed
+   by CaseJson; every expected array is evaluated by TLC.
 
    What the code does, transcribed
-     - computeMacroscopicGroupConstants(r):  sum over the nuclides of the composition with a non-zero density of
-       N_n times sigma_{n,sfx,r}, times a per-nuclide multiplier where asked for (nu per group, efiss, ecapt); a nuclide
-       with a non-zero density that the library does not hold under this suffix is refused (ValueError, documented:
+     - computeMacroscopicGroupConstants(r, libType):  sum over the nuclides of the composition with a non-zero density of
+       N_n times sigma_{n,sfx,r} of the NEUTRON ("micros") or GAMMA ("gammaXS") collection, times a per-nuclide multiplier
+       where asked for (nu per group, efiss, ecapt) which is read from multLib when one is given, else from the same library;
+       a nuclide with a non-zero density that the library does not hold under this suffix is refused (ValueError, documented:
        "an error is raised"); a zero density is skipped, so a missing nuclide with density 0 is harmless.
      - an optional reaction the file does not carry is the zero vector (the ISOTXS reader fills zeros); heating data a
        PMATRX nuclide does not carry contribute nothing.
-     - MacroscopicCrossSectionCreator: the vector reactions as above; scatter matrices summed over the LIBRARY's nuclides
-       of that suffix with the composition's density (0 when not in the composition); absorption = sum of the seven
-       absorption reactions; totalScatter = elastic + inelastic + 2 x n2n matrices; removal = absorption - n2n +
-       column sums of totalScatter - its diagonal, i.e. absorption plus everything scattered OUT of the group, to lower
-       and to higher energies alike (the tables have up-scatter entries, so the two sides of the diagonal both count).
-     - multipliers: nu per group from the micros; efiss / ecapt from the nuclide's ISOTXS record, where 0.0 is a value.
-     - XSCollection.getTotalScatterMatrix on one nuclide: the same sum over the matrices the nuclide HAS ("if a specific
-       scattering matrix does not exist ... it is skipped").
+     - MacroscopicCrossSectionCreator.createMacrosFromMicros(lib, block, nucNames, libType) with minimumNuclideDensity: the
+       composition is the block's, restricted to nucNames and to densities ABOVE the minimum; every field -- vectors and
+       scatter matrices alike -- is the weighted sum over that restricted composition, of the collection libType names;
+       scatter matrices are summed over the LIBRARY's nuclides of that suffix (density 0 when not selected);
+       absorption = sum of the seven absorption reactions; totalScatter = elastic + inelastic + 2 x n2n matrices;
+       removal = absorption - n2n + column sums of totalScatter - its diagonal, i.e. absorption plus everything scattered
+       OUT of the group, to lower and to higher energies alike (the tables have up-scatter entries).
+     - multipliers: nu per group from the collection; efiss / ecapt from the nuclide's ISOTXS record, where 0.0 is a value.
+     - XSCollection.getTotalScatterMatrix on one nuclide: the same sum over the matrices the nuclide HAS.
 
-   Laws checked in the specification (over exact rationals) for every case
-     ZeroForEmpty, AdditiveOverNuclides, Homogeneous (k x comp), AdditiveOverCompositions (comp + d for every d of PairSet), MissingZeroIsHarmless, and DerivedCommute: absorption / totalScatter / removal computed from the
-     macroscopic parts equal the density-weighted sums of the same quantities computed per nuclide.
+   Representation: a result is a record of indexed families of rationals (vectors indexed by group, matrices by <<to, from>>,
+   the seven reactions by <<reaction, group>>), so that sums and multiples of whole results are one-liners.
+   Laws checked in the specification (exact rationals) for every case: ZeroForEmpty, AdditiveOverNuclides,
+   AdditiveOverSelections, Homogeneous, AdditiveOverCompositions, MissingZeroIsHarmless (neutron collection and the energy
+   constants), GammaAdditive, DerivedCommute (both collections).
    Interpretation: "zero for an empty composition" = the zero vector of the group count (not None, not an exception).
 *)
 EXTENDS Integers, Sequences, FiniteSets, TLC, Json, FiniteSetsExt, SequencesExt, Rational
 
 CONSTANTS NG,        \* neutron groups
           NGam,      \* gamma groups
-          Variants,  \* set of table variants
+          Variants,  \* set of table variants (1..k)
           DensSeq,   \* sequence of densities (rationals <<num, den>>) a composition may use
           PairSet    \* the second operands d of AdditiveOverCompositions (a set of compositions)
 NNuc == 4
 Nuc  == 1..NNuc
-Sfxs == {"AA", "AB"}
-Grp  == 1..NG
-GGrp == 1..NGam
+Sfxs == {"AA", "NA"}
+Rads == {"n", "g"}
+GrpOf(rad) == IF rad = "n" THEN 1..NG ELSE 1..NGam
+RadIdx(rad) == IF rad = "n" THEN 0 ELSE 3
 
 VARIABLES case
 vars == <<case>>
 
-InLib(n, s) == (s = "AA" /\ n \in 1..3) \/ (s = "AB" /\ n = 1)
+InLib(n, s) == (s = "AA" /\ n \in 1..3) \/ (s = "NA" /\ n \in {1, 3})
 LibNucs(s)  == {n \in Nuc : InLib(n, s)}
 Fis(n)      == n = 1
 SIdx(s)     == IF s = "AA" THEN 0 ELSE 1
+\* the library whose multipliers are used in the multLib cases: the one of the next table variant
+V2(v)       == IF v + 1 \in Variants THEN v + 1 ELSE 1
 
-(* ---------- the micro table ---------- *)
+(* ---------- the micro tables (rad = "n": ISOTXS micros, rad = "g": GAMISO gammaXS) ---------- *)
 AbsParts == <<"nGamma", "fission", "nalph", "np", "nd", "nt", "n2n">>     \* XSCollection.getAbsorptionXS order
+NAbs     == Len(AbsParts)
 Capture  == {"nGamma", "nalph", "np", "nd", "nt"}
-RIdx(r)  == CHOOSE i \in 1..Len(AbsParts) : AbsParts[i] = r
-Has(v, n, r) == CASE r = "nGamma" -> TRUE
-                  [] r = "fission" -> Fis(n)
-                  [] OTHER -> ((v + 2 * n + RIdx(r)) % 3) # 0
-Sig(v, n, s, r, g) == IF Has(v, n, r) THEN RFrac(1 + ((3 * n + 5 * RIdx(r) + 7 * g + 2 * SIdx(s) + v) % 8), 4) ELSE RZero
-Nu(n, g)        == IF Fis(n) THEN RFrac(9 + g, 4) ELSE RZero
-Tot(v, n, s, g) == RFrac(40 + ((n + 3 * g + SIdx(s) + v) % 8), 4)
-Trn(v, n, s, g) == RFrac(32 + ((2 * n + g + SIdx(s) + v) % 8), 4)
+RIdx(r)  == CHOOSE i \in 1..NAbs : AbsParts[i] = r
+Has(rad, v, n, r) == CASE r = "nGamma" -> TRUE
+                       [] r = "fission" -> Fis(n)
+                       [] OTHER -> ((v + 2 * n + RIdx(r) + RadIdx(rad)) % 3) # 0
+Sig(rad, v, n, s, r, g) ==
+    IF Has(rad, v, n, r) THEN RFrac(1 + ((3 * n + 5 * RIdx(r) + 7 * g + 2 * SIdx(s) + v + RadIdx(rad)) % 8), 4) ELSE RZero
+Nu(rad, v, n, g)     == IF Fis(n) THEN RFrac(9 + g + v + RadIdx(rad), 4) ELSE RZero
+Tot(rad, v, n, s, g) == RFrac(40 + ((n + 3 * g + SIdx(s) + v + RadIdx(rad)) % 8), 4)
+Trn(rad, v, n, s, g) == RFrac(32 + ((2 * n + g + SIdx(s) + v + RadIdx(rad)) % 8), 4)
 \* energy per fission / per capture (ISOTXS efiss, ecapt: scalars of the nuclide record).  A file states them for every
-\* nuclide; exactly 0 is a legal value (a nuclide whose captures / fissions release nothing) and must act as 0, not as
-\* "absent": some (variant, nuclide) pairs carry a zero with non-zero cross sections
-EFiss(v, n) == IF Fis(n) /\ v # 2 THEN RFrac(3 + n, 2) ELSE RZero
-ECapt(v, n) == IF ((v + n) % 3) = 0 THEN RZero ELSE RFrac(1 + n, 4)
+\* nuclide; exactly 0 is a legal value and must act as 0, not as "absent"
+EFiss(v, n) == IF Fis(n) /\ v # 2 THEN RFrac(3 + n + v, 2) ELSE RZero
+ECapt(v, n) == IF ((v + n) % 3) = 0 THEN RZero ELSE RFrac(1 + n + v, 4)
 
 ScatKinds == <<"elasticScatter", "inelasticScatter", "n2nScatter">>
 MIdx(m)   == CHOOSE i \in 1..3 : ScatKinds[i] = m
-HasScat(v, n, m) == CASE m = "elasticScatter" -> TRUE
-                      [] m = "inelasticScatter" -> ((v + n) % 2) = 0
-                      [] OTHER -> ((v + n) % 3) # 0
-\* [to][from].  Down-scatter (from < to, to a lower energy) with some zeros inside the band (sparse); UP-scatter (from > to)
-\* in the elastic and inelastic matrices of some nuclides, so that "what leaves a group" (a column of the matrix without its
-\* diagonal term) has entries on both sides of the diagonal; the (n,2n) matrix scatters down only
+HasScat(rad, v, n, m) == CASE m = "elasticScatter" -> TRUE
+                           [] m = "inelasticScatter" -> ((v + n + RadIdx(rad)) % 2) = 0
+                           [] OTHER -> ((v + n + RadIdx(rad)) % 3) # 0
+\* [to, from].  Down-scatter (from < to) with some zeros inside the band (sparse); UP-scatter (from > to) in the elastic and
+\* inelastic matrices of some nuclides; the (n,2n) matrix scatters down only
 UpScat(v, n, m, to, from) == m # "n2nScatter" /\ ((v + n + MIdx(m) + to + 2 * from) % 2) = 0
-Scat(v, n, s, m, to, from) ==
-    IF ~HasScat(v, n, m) \/ (from > to /\ ~UpScat(v, n, m, to, from))
+Scat(rad, v, n, s, m, to, from) ==
+    IF ~HasScat(rad, v, n, m) \/ (from > to /\ ~UpScat(v, n, m, to, from))
        \/ (from < to /\ ((to + from + n + MIdx(m) + v) % 3) = 0) THEN RZero
-    ELSE RFrac(1 + ((n + 3 * MIdx(m) + 5 * to + 7 * from + SIdx(s) + v) % 6), 8)
+    ELSE RFrac(1 + ((n + 3 * MIdx(m) + 5 * to + 7 * from + SIdx(s) + v + RadIdx(rad)) % 6), 8)
 
 HasGHeat(v, n) == ((v + n) % 2) = 1
 NHeat(v, n, s, g) == RFrac(2 + ((n + g + SIdx(s) + v) % 4), 2)
 GHeat(v, n, s, g) == IF HasGHeat(v, n) THEN RFrac(1 + ((n + 2 * g + SIdx(s) + v) % 4), 2) ELSE RZero
 
-(* ---------- vectors and matrices of rationals ---------- *)
-VZero(D)      == [g \in D |-> RZero]
-VAdd(a, b)    == [g \in DOMAIN a |-> RAdd(a[g], b[g])]
-VSub(a, b)    == [g \in DOMAIN a |-> RSub(a[g], b[g])]
-VScale(k, a)  == [g \in DOMAIN a |-> RMul(k, a[g])]
-MAdd(a, b)    == [t \in Grp |-> [f \in Grp |-> RAdd(a[t][f], b[t][f])]]
-MScale(k, a)  == [t \in Grp |-> [f \in Grp |-> RMul(k, a[t][f])]]
-ColSum(a)     == [f \in Grp |-> RSumSet(Grp, LAMBDA t : a[t][f])]      \* everything scattered out of group f
-Diag(a)       == [f \in Grp |-> a[f][f]]
+(* ---------- indexed families of rationals, records of them, records of records of them ---------- *)
+FAdd(a, b)   == [i \in DOMAIN a |-> RAdd(a[i], b[i])]
+FSub(a, b)   == [i \in DOMAIN a |-> RSub(a[i], b[i])]
+FScale(k, a) == [i \in DOMAIN a |-> RMul(k, a[i])]
+R2Add(A, B)   == [f \in DOMAIN A |-> FAdd(A[f], B[f])]
+R2Scale(k, A) == [f \in DOMAIN A |-> FScale(k, A[f])]
+R3Add(A, B)   == [p \in DOMAIN A |-> R2Add(A[p], B[p])]
+R3Scale(k, A) == [p \in DOMAIN A |-> R2Scale(k, A[p])]
 
 (* ---------- compositions ---------- *)
 Dens   == {DensSeq[i] : i \in 1..Len(DensSeq)}
@@ -106,60 +114,50 @@ Comps  == [Nuc -> Dens]
 CZero  == [n \in Nuc |-> RZero]
 CScale(k, c) == [n \in Nuc |-> RMul(k, c[n])]
 CPlus(c, d)  == [n \in Nuc |-> RAdd(c[n], d[n])]
-COnly(c, n)  == [m \in Nuc |-> IF m = n THEN c[n] ELSE RZero]
+COnly(c, S)  == [m \in Nuc |-> IF m \in S THEN c[m] ELSE RZero]
+\* what createMacrosFromMicros keeps of a block's composition: the nuclides named, with a density above the minimum
+Selected(c, names, thr) == [m \in Nuc |-> IF m \in names /\ RLt(thr, c[m]) THEN c[m] ELSE RZero]
 Refused(c, s) == \E n \in Nuc : ~RIsZero(c[n]) /\ ~InLib(n, s)          \* ValueError: nuclide not in the library
 
-(* ---------- per-nuclide (microscopic) quantities ---------- *)
-MicroVec(v, n, s, r)  == [g \in Grp |-> Sig(v, n, s, r, g)]
-MicroAbs(v, n, s)     == FoldLeft(LAMBDA acc, r : VAdd(acc, MicroVec(v, n, s, r)), VZero(Grp), AbsParts)
-MicroScat(v, n, s, m) == [t \in Grp |-> [f \in Grp |-> Scat(v, n, s, m, t, f)]]
+(* ---------- per-nuclide (microscopic) derived quantities ---------- *)
+MicroAbs(rad, v, n, s)     == [g \in GrpOf(rad) |-> RSumSet(1..NAbs, LAMBDA i : Sig(rad, v, n, s, AbsParts[i], g))]
 \* XSCollection.getTotalScatterMatrix: the matrices that exist, n2n counted twice (reaction-based -> production-based)
-MicroTotScat(v, n, s) == MAdd(MAdd(MicroScat(v, n, s, "elasticScatter"), MicroScat(v, n, s, "inelasticScatter")),
-                              MScale(RInt(2), MicroScat(v, n, s, "n2nScatter")))
-MicroRemoval(v, n, s) == LET ts == MicroTotScat(v, n, s) IN
-                         VAdd(VSub(MicroAbs(v, n, s), MicroVec(v, n, s, "n2n")), VSub(ColSum(ts), Diag(ts)))
+MicroTotScat(rad, v, n, s) == [tf \in GrpOf(rad) \X GrpOf(rad) |->
+        RAdd(RAdd(Scat(rad, v, n, s, "elasticScatter", tf[1], tf[2]), Scat(rad, v, n, s, "inelasticScatter", tf[1], tf[2])),
+             RMul(RInt(2), Scat(rad, v, n, s, "n2nScatter", tf[1], tf[2])))]
+OutScatter(rad, ts)        == [f \in GrpOf(rad) |-> RSumSet(GrpOf(rad) \ {f}, LAMBDA t : ts[<<t, f>>])]   \* everything leaving group f
+MicroRemoval(rad, v, n, s) == [g \in GrpOf(rad) |->
+        RAdd(RSub(MicroAbs(rad, v, n, s)[g], Sig(rad, v, n, s, "n2n", g)), OutScatter(rad, MicroTotScat(rad, v, n, s))[g])]
 
 (* ---------- macroscopic quantities: density-weighted sums over the library's nuclides of the suffix ---------- *)
-WSum(c, s, f(_, _), D)  == [g \in D |-> RSumSet(LibNucs(s), LAMBDA n : RMul(c[n], f(n, g)))]
-MacroVec(v, c, s, r)    == WSum(c, s, LAMBDA n, g : Sig(v, n, s, r, g), Grp)
-MacroNuSigF(v, c, s)    == WSum(c, s, LAMBDA n, g : RMul(Sig(v, n, s, "fission", g), Nu(n, g)), Grp)
-MacroTot(v, c, s)       == WSum(c, s, LAMBDA n, g : Tot(v, n, s, g), Grp)
-MacroTrn(v, c, s)       == WSum(c, s, LAMBDA n, g : Trn(v, n, s, g), Grp)
-MacroNHeat(v, c, s)     == WSum(c, s, LAMBDA n, g : NHeat(v, n, s, g), Grp)
-MacroGHeat(v, c, s)     == WSum(c, s, LAMBDA n, g : GHeat(v, n, s, g), GGrp)
-MacroFisE(v, c, s)      == WSum(c, s, LAMBDA n, g : RMul(Sig(v, n, s, "fission", g), EFiss(v, n)), Grp)
-MacroCapE(v, c, s)      == WSum(c, s, LAMBDA n, g : RMul(RSumSet(Capture, LAMBDA r : Sig(v, n, s, r, g)), ECapt(v, n)), Grp)
-MacroScat(v, c, s, m)   == [t \in Grp |-> [f \in Grp |-> RSumSet(LibNucs(s), LAMBDA n : RMul(c[n], Scat(v, n, s, m, t, f)))]]
-
-\* everything one case is asked about, as one record; the derived quantities are built from the macroscopic parts
-\* (the way MacroscopicCrossSectionCreator builds them)
-AllOf(v, c, s) ==
-    LET rx == [i \in 1..Len(AbsParts) |-> MacroVec(v, c, s, AbsParts[i])]
-        sc == [i \in 1..3 |-> MacroScat(v, c, s, ScatKinds[i])]
-        ab == FoldLeft(LAMBDA acc, i : VAdd(acc, rx[i]), VZero(Grp), [i \in 1..Len(AbsParts) |-> i])
-        ts == MAdd(MAdd(sc[1], sc[2]), MScale(RInt(2), sc[3]))
-    IN [rx      |-> rx,
-        nuSigF  |-> MacroNuSigF(v, c, s), total |-> MacroTot(v, c, s), transport |-> MacroTrn(v, c, s),
-        nheat   |-> MacroNHeat(v, c, s), gheat |-> MacroGHeat(v, c, s),
-        fisE    |-> MacroFisE(v, c, s), capE |-> MacroCapE(v, c, s),
-        scat    |-> sc,
-        absorption |-> ab, totalScatter |-> ts,
-        removal |-> VAdd(VSub(ab, rx[RIdx("n2n")]), VSub(ColSum(ts), Diag(ts)))]
-\* field-wise sum / scaling of such records
-AllPlus(A, B) ==
-    [rx |-> [i \in DOMAIN A.rx |-> VAdd(A.rx[i], B.rx[i])],
-     nuSigF |-> VAdd(A.nuSigF, B.nuSigF), total |-> VAdd(A.total, B.total), transport |-> VAdd(A.transport, B.transport),
-     nheat |-> VAdd(A.nheat, B.nheat), gheat |-> VAdd(A.gheat, B.gheat), fisE |-> VAdd(A.fisE, B.fisE), capE |-> VAdd(A.capE, B.capE),
-     scat |-> [i \in DOMAIN A.scat |-> MAdd(A.scat[i], B.scat[i])],
-     absorption |-> VAdd(A.absorption, B.absorption), totalScatter |-> MAdd(A.totalScatter, B.totalScatter),
-     removal |-> VAdd(A.removal, B.removal)]
-AllScale(k, A) ==
-    [rx |-> [i \in DOMAIN A.rx |-> VScale(k, A.rx[i])],
-     nuSigF |-> VScale(k, A.nuSigF), total |-> VScale(k, A.total), transport |-> VScale(k, A.transport),
-     nheat |-> VScale(k, A.nheat), gheat |-> VScale(k, A.gheat), fisE |-> VScale(k, A.fisE), capE |-> VScale(k, A.capE),
-     scat |-> [i \in DOMAIN A.scat |-> MScale(k, A.scat[i])],
-     absorption |-> VScale(k, A.absorption), totalScatter |-> MScale(k, A.totalScatter), removal |-> VScale(k, A.removal)]
-AllZero == AllScale(RZero, AllOf(CHOOSE v \in Variants : TRUE, CZero, "AA"))
+WSum(c, s, f(_, _), D) == [i \in D |-> RSumSet(LibNucs(s), LAMBDA n : RMul(c[n], f(n, i)))]
+\* everything the creator produces for one radiation; the derived quantities are built from the macroscopic parts
+XsOf(rad, v, c, s) ==
+    LET G  == GrpOf(rad)
+        rx == WSum(c, s, LAMBDA n, ig : Sig(rad, v, n, s, AbsParts[ig[1]], ig[2]), (1..NAbs) \X G)
+        sc == WSum(c, s, LAMBDA n, mtf : Scat(rad, v, n, s, ScatKinds[mtf[1]], mtf[2], mtf[3]), (1..3) \X G \X G)
+        ab == [g \in G |-> RSumSet(1..NAbs, LAMBDA i : rx[<<i, g>>])]
+        ts == [tf \in G \X G |-> RAdd(RAdd(sc[<<1, tf[1], tf[2]>>], sc[<<2, tf[1], tf[2]>>]), RMul(RInt(2), sc[<<3, tf[1], tf[2]>>]))]
+    IN [rx |-> rx,
+        nuSigF |-> WSum(c, s, LAMBDA n, g : RMul(Sig(rad, v, n, s, "fission", g), Nu(rad, v, n, g)), G),
+        total |-> WSum(c, s, LAMBDA n, g : Tot(rad, v, n, s, g), G),
+        transport |-> WSum(c, s, LAMBDA n, g : Trn(rad, v, n, s, g), G),
+        scat |-> sc, absorption |-> ab, totalScatter |-> ts,
+        removal |-> [g \in G |-> RAdd(RSub(ab[g], rx[<<RIdx("n2n"), g>>]), OutScatter(rad, ts)[g])]]
+\* energy deposition / generation (neutron library + PMATRX), and the multiplied sums with the multipliers of ANOTHER library
+Extras(v, c, s) ==
+    [nheat |-> WSum(c, s, LAMBDA n, g : NHeat(v, n, s, g), GrpOf("n")),
+     gheat |-> WSum(c, s, LAMBDA n, g : GHeat(v, n, s, g), GrpOf("g")),
+     fisE  |-> WSum(c, s, LAMBDA n, g : RMul(Sig("n", v, n, s, "fission", g), EFiss(v, n)), GrpOf("n")),
+     capE  |-> WSum(c, s, LAMBDA n, g : RMul(RSumSet(Capture, LAMBDA r : Sig("n", v, n, s, r, g)), ECapt(v, n)), GrpOf("n")),
+     nuSigFx |-> WSum(c, s, LAMBDA n, g : RMul(Sig("n", v, n, s, "fission", g), Nu("n", V2(v), n, g)), GrpOf("n")),
+     fisEx   |-> WSum(c, s, LAMBDA n, g : RMul(Sig("n", v, n, s, "fission", g), EFiss(V2(v), n)), GrpOf("n")),
+     capEx   |-> WSum(c, s, LAMBDA n, g : RMul(Sig("n", v, n, s, "nGamma", g), ECapt(V2(v), n)), GrpOf("n"))]
+AllOf(v, c, s) == [n |-> XsOf("n", v, c, s), g |-> XsOf("g", v, c, s), x |-> Extras(v, c, s)]
+\* the laws with many operands are evaluated on the neutron collection and the extras; the gamma collection is the same
+\* operator XsOf with rad = "g" and has its own additivity and derived-quantity laws (GammaAdditive, DerivedCommute)
+LawOf(v, c, s) == [n |-> XsOf("n", v, c, s), x |-> Extras(v, c, s)]
+AllZero == R3Scale(RZero, LawOf(1, CZero, "AA"))
 
 \* a case is built density by density; it is complete with NNuc densities
 Init == case \in [v : Variants, sfx : Sfxs, d : {<<>>}]
@@ -171,58 +169,81 @@ Complete == Len(case.d) = NNuc
 V == case.v
 S == case.sfx
 C == [n \in Nuc |-> case.d[n]]
-Here == AllOf(V, C, S)
+Here == LawOf(V, C, S)
+\* the selections of createMacrosFromMicros that are exercised besides "the whole block"
+SelNames == Nuc \ {2}            \* nucNames = every nuclide but FE56
+SelThr   == RFrac(1, 2)          \* minimumNuclideDensity = 1/2: densities of 1/2 and below are dropped
 
 (* ==================================== laws ==================================== *)
-ZeroForEmpty == Complete => ((\A n \in LibNucs(S) : RIsZero(C[n])) => Here = AllZero)
+ZeroForEmpty == Complete => ((\A n \in LibNucs(S) : RIsZero(C[n])) =>
+                                Here = AllZero /\ XsOf("g", V, C, S) = R2Scale(RZero, XsOf("g", 1, CZero, "AA")))
 AdditiveOverNuclides == Complete =>
-    Here = FoldLeft(LAMBDA acc, n : AllPlus(acc, AllOf(V, COnly(C, n), S)), AllZero, SetToSeq(Nuc))
+    Here = FoldLeft(LAMBDA acc, n : R3Add(acc, LawOf(V, COnly(C, {n}), S)), AllZero, SetToSeq(Nuc))
+GammaAdditive == Complete =>
+    XsOf("g", V, C, S) = FoldLeft(LAMBDA acc, n : R2Add(acc, XsOf("g", V, COnly(C, {n}), S)),
+                                  R2Scale(RZero, XsOf("g", 1, CZero, "AA")), SetToSeq(Nuc))
+\* macros(A) + macros(B) = macros(A u B) for a split of the block's nuclides, and for the split made by the density threshold
+AdditiveOverSelections == Complete =>
+    /\ Here = R3Add(LawOf(V, Selected(C, SelNames, RInt(0 - 1)), S), LawOf(V, COnly(C, Nuc \ SelNames), S))
+    /\ Here = R3Add(LawOf(V, Selected(C, Nuc, SelThr), S), LawOf(V, [m \in Nuc |-> IF RLt(SelThr, C[m]) THEN RZero ELSE C[m]], S))
 Homogeneous == Complete =>
-    LET H == Here IN \A k \in {RFrac(1, 2), RInt(2), RInt(3), RFrac(2, 3)} : AllOf(V, CScale(k, C), S) = AllScale(k, H)
+    LET H == Here IN \A k \in {RFrac(1, 2), RInt(3), RFrac(2, 3)} : LawOf(V, CScale(k, C), S) = R3Scale(k, H)
 AdditiveOverCompositions == Complete =>
-    LET H == Here IN \A d \in PairSet : AllOf(V, CPlus(C, d), S) = AllPlus(H, AllOf(V, d, S))
+    LET H == Here IN \A d \in PairSet : LawOf(V, CPlus(C, d), S) = R3Add(H, LawOf(V, d, S))
 \* a nuclide the library does not hold matters only through the refusal
-MissingZeroIsHarmless == Complete => Here = AllOf(V, [n \in Nuc |-> IF InLib(n, S) THEN C[n] ELSE RZero], S)
+MissingZeroIsHarmless == Complete => Here = LawOf(V, [n \in Nuc |-> IF InLib(n, S) THEN C[n] ELSE RZero], S)
 \* derived quantities commute with the weighted sum
 DerivedCommute == Complete =>
-    LET H == Here IN
-    /\ H.absorption   = WSum(C, S, LAMBDA n, g : MicroAbs(V, n, S)[g], Grp)
-    /\ H.removal      = WSum(C, S, LAMBDA n, g : MicroRemoval(V, n, S)[g], Grp)
-    /\ H.totalScatter = [t \in Grp |-> [f \in Grp |-> RSumSet(LibNucs(S), LAMBDA n : RMul(C[n], MicroTotScat(V, n, S)[t][f]))]]
-\* the domain really contains what the laws are about: a zero energy-per-capture and a zero energy-per-fission next to
-\* non-zero cross sections, and scatter entries on both sides of the diagonal (checked once, on the constants)
-ASSUME /\ \E v \in Variants : \E n \in 1..3 : RIsZero(ECapt(v, n)) /\ \E g \in Grp : ~RIsZero(Sig(v, n, "AA", "nGamma", g))
-       /\ \E v \in Variants : RIsZero(EFiss(v, 1)) /\ \E g \in Grp : ~RIsZero(Sig(v, 1, "AA", "fission", g))
-       /\ \A v \in Variants : \E n \in 1..3 : \E t, f \in Grp : f > t /\ ~RIsZero(Scat(v, n, "AA", "elasticScatter", t, f))
-       /\ \A v \in Variants : \E n \in 1..3 : \E t, f \in Grp : f < t /\ ~RIsZero(Scat(v, n, "AA", "elasticScatter", t, f))
+    \A rad \in Rads : LET H == [n |-> Here.n, g |-> XsOf("g", V, C, S)] IN
+    /\ H[rad].absorption   = WSum(C, S, LAMBDA n, g : MicroAbs(rad, V, n, S)[g], GrpOf(rad))
+    /\ H[rad].removal      = WSum(C, S, LAMBDA n, g : MicroRemoval(rad, V, n, S)[g], GrpOf(rad))
+    /\ H[rad].totalScatter = WSum(C, S, LAMBDA n, tf : MicroTotScat(rad, V, n, S)[tf], GrpOf(rad) \X GrpOf(rad))
+\* the domain really contains what the laws are about (checked once, on the constants)
+ASSUME /\ \E v \in Variants : \E n \in 1..3 : RIsZero(ECapt(v, n)) /\ \E g \in GrpOf("n") : ~RIsZero(Sig("n", v, n, "AA", "nGamma", g))
+       /\ \E v \in Variants : RIsZero(EFiss(v, 1)) /\ \E g \in GrpOf("n") : ~RIsZero(Sig("n", v, 1, "AA", "fission", g))
+       /\ \A v \in Variants : \E n \in 1..3 : \E t, f \in GrpOf("n") : f > t /\ ~RIsZero(Scat("n", v, n, "AA", "elasticScatter", t, f))
+       /\ \A v \in Variants : \E n \in 1..3 : \E t, f \in GrpOf("n") : f < t /\ ~RIsZero(Scat("n", v, n, "AA", "elasticScatter", t, f))
+       /\ \A v \in Variants : \E g \in GrpOf("n") : Nu("n", v, 1, g) # Nu("n", V2(v), 1, g)
+       /\ \A v \in Variants : \E g \in GrpOf("n") : Nu("n", v, 1, g) # Nu("g", v, 1, g)
 TypeOK == case.v \in Variants /\ case.sfx \in Sfxs /\ Len(case.d) <= NNuc /\ \A i \in 1..Len(case.d) : case.d[i] \in Dens
 
 (* ==================================== what is printed ==================================== *)
 Q(v)  == <<v[1], v[2]>>
-QV(a) == [g \in DOMAIN a |-> Q(a[g])]
-QM(a) == [t \in DOMAIN a |-> QV(a[t])]
+QVec(a, D)   == [g \in D |-> Q(a[g])]
+QMat(a, D)   == [t \in D |-> [f \in D |-> Q(a[<<t, f>>])]]
+QXs(X, rad) ==
+    LET D == GrpOf(rad) IN
+    [rx |-> [i \in 1..NAbs |-> [g \in D |-> Q(X.rx[<<i, g>>])]],
+     nuSigF |-> QVec(X.nuSigF, D), total |-> QVec(X.total, D), transport |-> QVec(X.transport, D),
+     scat |-> [i \in 1..3 |-> [t \in D |-> [f \in D |-> Q(X.scat[<<i, t, f>>])]]],
+     absorption |-> QVec(X.absorption, D), totalScatter |-> QMat(X.totalScatter, D), removal |-> QVec(X.removal, D)]
+RadEntry(rad, v, n, s) ==
+    LET D == GrpOf(rad) IN
+    [has   |-> [i \in 1..NAbs |-> Has(rad, v, n, AbsParts[i])],
+     rx    |-> [i \in 1..NAbs |-> [g \in D |-> Q(Sig(rad, v, n, s, AbsParts[i], g))]],
+     nu    |-> [g \in D |-> Q(Nu(rad, v, n, g))],
+     total |-> [g \in D |-> Q(Tot(rad, v, n, s, g))], transport |-> [g \in D |-> Q(Trn(rad, v, n, s, g))],
+     hasScat |-> [i \in 1..3 |-> HasScat(rad, v, n, ScatKinds[i])],
+     scat    |-> [i \in 1..3 |-> [t \in D |-> [f \in D |-> Q(Scat(rad, v, n, s, ScatKinds[i], t, f))]]],
+     totScat |-> QMat(MicroTotScat(rad, v, n, s), D)]
 EntryJson(v, n, s) ==
-    [nuc |-> n, sfx |-> s, fis |-> Fis(n),
-     has   |-> [i \in 1..Len(AbsParts) |-> Has(v, n, AbsParts[i])],
-     rx    |-> [i \in 1..Len(AbsParts) |-> QV(MicroVec(v, n, s, AbsParts[i]))],
-     nu    |-> QV([g \in Grp |-> Nu(n, g)]),
-     total |-> QV([g \in Grp |-> Tot(v, n, s, g)]), transport |-> QV([g \in Grp |-> Trn(v, n, s, g)]),
-     efiss |-> Q(EFiss(v, n)), ecapt |-> Q(ECapt(v, n)),
-     hasScat |-> [i \in 1..3 |-> HasScat(v, n, ScatKinds[i])],
-     scat    |-> [i \in 1..3 |-> QM(MicroScat(v, n, s, ScatKinds[i]))],
-     totScat |-> QM(MicroTotScat(v, n, s)),
-     hasGHeat |-> HasGHeat(v, n),
-     nheat |-> QV([g \in Grp |-> NHeat(v, n, s, g)]), gheat |-> QV([g \in GGrp |-> GHeat(v, n, s, g)])]
-TableJson(v) == [table |-> v, ng |-> NG, ngam |-> NGam, absParts |-> AbsParts, scatKinds |-> ScatKinds,
-                 entries |-> <<EntryJson(v, 1, "AA"), EntryJson(v, 2, "AA"), EntryJson(v, 3, "AA"), EntryJson(v, 1, "AB")>>]
+    [nuc |-> n, sfx |-> s, fis |-> Fis(n), n |-> RadEntry("n", v, n, s), g |-> RadEntry("g", v, n, s),
+     efiss |-> Q(EFiss(v, n)), ecapt |-> Q(ECapt(v, n)), hasGHeat |-> HasGHeat(v, n),
+     nheat |-> [g \in GrpOf("n") |-> Q(NHeat(v, n, s, g))], gheat |-> [g \in GrpOf("g") |-> Q(GHeat(v, n, s, g))]]
+TableJson(v) == [table |-> v, ng |-> NG, ngam |-> NGam, absParts |-> AbsParts, scatKinds |-> ScatKinds, multTable |-> V2(v),
+                 entries |-> <<EntryJson(v, 1, "AA"), EntryJson(v, 2, "AA"), EntryJson(v, 3, "AA"),
+                               EntryJson(v, 1, "NA"), EntryJson(v, 3, "NA")>>]
+SelJson(tag, names, thr) ==
+    LET eff == Selected(C, names, thr) IN
+    [tag |-> tag, names |-> SetToSortSeq(names, <), thr |-> Q(thr), refused |-> Refused(eff, S), exp |-> QXs(XsOf("n", V, eff, S), "n")]
 CaseJson ==
-    LET H == Here IN
+    LET H == AllOf(V, C, S) IN
     [v |-> V, sfx |-> S, comp |-> [n \in Nuc |-> Q(C[n])],
      refused |-> Refused(C, S),
      empty   |-> \A n \in Nuc : RIsZero(C[n]),
-     exp |-> [rx |-> [i \in 1..Len(AbsParts) |-> QV(H.rx[i])],
-              nuSigF |-> QV(H.nuSigF), total |-> QV(H.total), transport |-> QV(H.transport),
-              nheat |-> QV(H.nheat), gheat |-> QV(H.gheat), fisE |-> QV(H.fisE), capE |-> QV(H.capE),
-              scat |-> [i \in 1..3 |-> QM(H.scat[i])],
-              absorption |-> QV(H.absorption), totalScatter |-> QM(H.totalScatter), removal |-> QV(H.removal)]]
+     n |-> QXs(H.n, "n"), g |-> QXs(H.g, "g"),
+     x |-> [nheat |-> QVec(H.x.nheat, GrpOf("n")), gheat |-> QVec(H.x.gheat, GrpOf("g")), fisE |-> QVec(H.x.fisE, GrpOf("n")),
+            capE |-> QVec(H.x.capE, GrpOf("n")), nuSigFx |-> QVec(H.x.nuSigFx, GrpOf("n")), fisEx |-> QVec(H.x.fisEx, GrpOf("n")),
+            capEx |-> QVec(H.x.capEx, GrpOf("n"))],
+     sel |-> <<SelJson("names", SelNames, RInt(0 - 1)), SelJson("minimum", Nuc, SelThr)>>]
 =====================================================================================================
